@@ -43,6 +43,8 @@ def confirm(src):
 
 
 srcs = sorted(glob.glob(os.path.join(outdir, "C??-[ab]")))
+if os.environ.get("ONLY"):
+    srcs = [s for s in srcs if os.path.basename(s)[:3] in os.environ["ONLY"].split()]
 with cf.ThreadPoolExecutor(max_workers=6) as ex:
     for name, c in ex.map(confirm, srcs):
         ok = bool(c) and c.get("applies") and "215 passed" in c["tests"] and "2 failed" in c["tests"] and c["demo_with"] == 1 and c["demo_without"] == 0
